@@ -96,6 +96,7 @@ def run(case):
                    'switches': s.switches,
                    'outcomes': [t.outcomes for t in w.tasks]},
         'digest': w.sim.digest(repr(w.rec.events), w.viol, s.trace),
+        'schedule': list(s.trace),
     }
 
 
